@@ -33,17 +33,21 @@ const (
 	Strip
 )
 
-var rawText = map[string]bool{"pre": true, "textarea": true, "script": true, "style": true}
+var rawText = map[string]bool{"pre": true, "textarea": true, "script": true, "style": true, "xmp": true}
+
+// Both parsers run with scripting disabled, one of the two configurations an HTML5 user agent
+// can be in: the content of <noscript> is then markup (elements), not one raw text run, which
+// is the reading under which it matters to a reader of the page.
 
 // ParseFragment parses s as the content of a <body>.
 func ParseFragment(s string) ([]*html.Node, error) {
 	body := &html.Node{Type: html.ElementNode, Data: "body", DataAtom: atom.Body}
-	return html.ParseFragment(strings.NewReader(s), body)
+	return html.ParseFragmentWithOptions(strings.NewReader(s), body, html.ParseOptionEnableScripting(false))
 }
 
 // ParseDoc parses s as a full document and returns the document node's children.
 func ParseDoc(s string) ([]*html.Node, error) {
-	doc, err := html.Parse(strings.NewReader(s))
+	doc, err := html.ParseWithOptions(strings.NewReader(s), html.ParseOptionEnableScripting(false))
 	if err != nil {
 		return nil, err
 	}
@@ -112,7 +116,15 @@ func Norm(nodes []*html.Node, m Mode, raw bool) []*N {
 			// ignored; adjacent text merges
 		case html.DoctypeNode:
 			flush()
-			out = append(out, &N{Doctype: true, Text: strings.ToLower(n.Data)})
+			d := &N{Doctype: true, Text: strings.ToLower(n.Data)}
+			for _, a := range n.Attr {
+				// public / system identifiers of a legacy doctype
+				if d.Attrs == nil {
+					d.Attrs = map[string]string{}
+				}
+				d.Attrs[a.Key] = a.Val
+			}
+			out = append(out, d)
 		case html.ElementNode:
 			flush()
 			e := &N{Tag: n.Data}
@@ -186,8 +198,8 @@ func diffList(a, b []*N, o Options, path string) string {
 			return fmt.Sprintf("%s: %s vs %s", p, x.Brief(), y.Brief())
 		}
 		if x.Doctype {
-			if x.Text != y.Text {
-				return fmt.Sprintf("%s: doctype %q vs %q", p, x.Text, y.Text)
+			if x.Text != y.Text || attrString(x.Attrs) != attrString(y.Attrs) {
+				return fmt.Sprintf("%s: doctype %q%s vs %q%s", p, x.Text, attrString(x.Attrs), y.Text, attrString(y.Attrs))
 			}
 			continue
 		}
